@@ -92,4 +92,15 @@ HnpRelation == \A d \in 1..(Q - 1) : \A z \in {0, 1, Q - 1} :
                           a == (z * si) % Q
                           b == (r * si) % Q
                       IN (a + b * d) % Q = k
+
+(* ---------- the whole curve group (cofactor curves: points outside the subgroup, points of order two) ---- *)
+StepAddAny == \E q \in Points : acc' = Add(acc, q)
+SpecAll == Init /\ [][StepAddAny \/ StepDouble \/ StepNeg]_acc
+ClosedAll == acc \in Points
+CommutativeAll == \A q \in Points : Add(acc, q) = Add(q, acc)
+AssociativeAll == \A q, r \in Points : Add(Add(acc, q), r) = Add(acc, Add(q, r))
+GroupOrderAll == Cardinality(Points) = Q * H /\ Times(Q * H, acc) = Inf
+\* the subgroup test of IsValidPublicKey is exactly membership in <G>
+SubgroupTest == (Times(Q, acc) = Inf) <=> (acc \in Subgroup)
+TimesIsHom == \A k \in (0 - 2)..(Q + 1) : Times(k + 1, acc) = Add(Times(k, acc), acc)
 =============================================================================
